@@ -84,6 +84,12 @@ CHECKS.update({
    text="Trapezoid: every planning branch, both directions, all real feasible requests: phase durations ordered, start/end state, queries outside [0,t], |vel| <= |vm| for a symbolic time in each phase, acc = d vel/dt, vel = d pos/dt, position and velocity continuous at every phase boundary. Bell profile: the same clauses plus |acc| <= am, |jer| <= jm and continuity of acc, for plans with a constant-velocity phase; the iterative acceleration-reduction loop is cut and stated as outside.",
    note=E2NOTE + REALNOTE + " sqrt(x) is the y >= 0 with y*y = x; z3 'unknown' answers would be listed as dropped (bell only), there are none at present."),
 })
+CHECKS.update({
+ "C16": dict(engine="llsym", cat="model_checking", design="4/C16",
+   technique="symbolic execution of src/tf.c, a_real_push_fore and the inline lpf.h/hpf.h functions (wrapper TU) with a_real as z3 Real: outputs compared with the difference equation, linearity / time-invariance / zeroing and convexity clauses decided by z3",
+   text="Transfer function with numerator/denominator orders 0..3 (4) over 4 (6) steps from zero state with symbolic coefficients and inputs: output = difference equation, delay-line contents, linearity (alpha*u + beta*w), time invariance, zero() = fresh instance; RC low-pass: convex combination, stays within the range of the inputs so far, distance to a constant input shrinks by (1-alpha); high-pass: output scales by alpha for constant input; generators strictly inside (0,1) and monotone for all positive reals.",
+   note=E2NOTE + REALNOTE + " The IEEE clause (saturation only for extreme fc*ts) is outside."),
+})
 NOT_YET = {}
 
 def main():
